@@ -12,12 +12,12 @@
 // rotating over several realizations of each class so that every code path
 // that rejects a message is taken:
 //
-//   sig  = invalid : signature by another member's key over the hash |
-//                    signature over a different hash | truncated (malformed,
-//                    verification returns an error) | empty
-//   key  = other   : another member's key | the outsider's key in the message
-//   origin=foreign : impostor (another member's pinned key claims the index) |
-//                    outsider key | right key but a different session
+//	sig  = invalid : signature by another member's key over the hash |
+//	                 signature over a different hash | truncated (malformed,
+//	                 verification returns an error) | empty
+//	key  = other   : another member's key | the outsider's key in the message
+//	origin=foreign : impostor (another member's pinned key claims the index) |
+//	                 outsider key | right key but a different session
 package verifsup
 
 import (
